@@ -1042,3 +1042,7 @@ class AccessoryDriver:
             action = "Subscribed" if ev else "Unsubscribed"
             logger.debug("%s client %s to topic %s", action, client_addr, char_topic)
             self.async_subscribe_client_topic(client_addr, char_topic, ev)
+            if not ev:
+                # A value that is still queued from before must not reach the
+                # client later, e.g. after it has subscribed again
+                self.http_server.discard_event(aid, iid, client_addr)
